@@ -234,6 +234,7 @@ type FoundViolation struct {
 	Replay      string `json:"replay"`
 	Known       string `json:"known,omitempty"` // the "what" of the matching known finding
 	Count       int    `json:"count"`
+	FirstIdx    int    `json:"first_idx"`
 }
 
 type WorkerOpts struct {
@@ -247,6 +248,7 @@ type WorkerOpts struct {
 	ReplayDir string
 	KnownPath string
 	Out       string
+	From      int // first run index (debugging order dependence)
 }
 
 func runSeed(seed uint64, prop string, worker, idx int) uint64 {
@@ -281,6 +283,7 @@ func RunWorker(o WorkerOpts) *WorkerResult {
 		return ck.Oracle(p)
 	}
 	handle := func(p *Plan, rs uint64) {
+		p.normalize()
 		v := safeOracle(p)
 		res.Evaluations++
 		res.Worlds += v.Runs
@@ -316,7 +319,7 @@ func RunWorker(o WorkerOpts) *WorkerResult {
 				fv.Count++
 				continue
 			}
-			fv := &FoundViolation{Fingerprint: fp, Rule: viol.Rule, Detail: viol.Detail, Count: 1}
+			fv := &FoundViolation{Fingerprint: fp, Rule: viol.Rule, Detail: viol.Detail, Count: 1, FirstIdx: res.Evaluations - 1}
 			seen[fp] = fv
 			if k := known.match(o.Prop, viol); k != nil {
 				fv.Known = k.What
@@ -355,8 +358,8 @@ func RunWorker(o WorkerOpts) *WorkerResult {
 		}
 		res.Exhaustive = true
 	}
-	for idx := 0; ; idx++ {
-		if o.MaxRuns > 0 && idx >= o.MaxRuns {
+	for idx := o.From; ; idx++ {
+		if o.MaxRuns > 0 && idx >= o.From+o.MaxRuns {
 			break
 		}
 		if time.Since(start) > o.Budget {
@@ -487,5 +490,42 @@ func Show(path string) string {
 	for _, x := range v.Violations {
 		fmt.Fprintf(&sb, "VIOLATION %s: %s\n", x.Fingerprint(rf.Property), x.Detail)
 	}
+	return sb.String()
+}
+
+// DebugShrink: generate plan idx of a worker's stream, shrink its first violation and re-evaluate the result repeatedly (order-dependence hunt).
+func DebugShrink(prop string, seed uint64, worker, idx int) string {
+	ck := checks[prop]
+	var sb strings.Builder
+	c := NewChooser(runSeed(seed, prop, worker, idx), 1)
+	p := ck.Gen(c, "quick")
+	v := ck.Oracle(p)
+	fmt.Fprintf(&sb, "original: %d violations\n", len(v.Violations))
+	if len(v.Violations) == 0 {
+		return sb.String()
+	}
+	viol := &v.Violations[0]
+	fp := viol.Fingerprint(prop)
+	for i := 0; i < 6; i++ {
+		v2 := ck.Oracle(p)
+		fmt.Fprintf(&sb, "re-evaluation %d of original plan: %d violations\n", i, len(v2.Violations))
+	}
+	sp, _, n := shrinkPlan(ck, p, prop, viol)
+	fmt.Fprintf(&sb, "shrunk in %d runs\n", n)
+	for i := 0; i < 4; i++ {
+		v2 := ck.Oracle(sp)
+		hit := false
+		for j := range v2.Violations {
+			if v2.Violations[j].Fingerprint(prop) == fp {
+				hit = true
+			}
+		}
+		fmt.Fprintf(&sb, "re-evaluation %d of shrunk plan: reproduced=%v\n", i, hit)
+	}
+	rt := sp.clone()
+	v3 := ck.Oracle(rt)
+	fmt.Fprintf(&sb, "after JSON round trip: %d violations\n", len(v3.Violations))
+	pj, _ := json.Marshal(sp)
+	fmt.Fprintf(&sb, "PLAN %s\n", pj)
 	return sb.String()
 }
